@@ -169,6 +169,14 @@ def gen_geo(ctx, i):
             'block_order': order, 'case': case_, 'feet': feet, 'zero_mode': zero, 'zero_variant': zvariant}
     if zvariant:
         ctx.see('layer_centre_zero_variant', zvariant)
+    if rng.random() < 0.3:
+        # the header options reached through their setters rather than through the constructor: another block
+        # order first, then the final one (None included) -- what the file says must be what the object says
+        other = rng.choice([o for o in (None, 'layer_column', 'dmplex') if o != order])
+        geo.block_order = other
+        geo.block_order = order
+        desc['block_order_history'] = [other, order]
+        ctx.count('block_order_set_twice')
     if feet:
         geo.unit_type = 'FEET '
     r = rng.random()
